@@ -514,15 +514,42 @@ impl Bdd {
         self.generate_var_dependencies();
         #[cfg(feature = "adhoccounting")]
         {
-            self.count_cache
-                .borrow_mut()
-                .insert(Term::TOP, (ModelCounts::top(), ModelCounts::top(), 0));
-            self.count_cache
-                .borrow_mut()
-                .insert(Term::BOT, (ModelCounts::bot(), ModelCounts::bot(), 0));
-            for i in 0..self.nodes.len() {
+            let mut count_cache = self.count_cache.borrow_mut();
+            count_cache.insert(Term::TOP, (ModelCounts::top(), ModelCounts::top(), 0));
+            count_cache.insert(Term::BOT, (ModelCounts::bot(), ModelCounts::bot(), 0));
+            // the same book-keeping as in `node` (children precede their parents in the table):
+            // model counts are only kept with `adhoccountmodels`, computing them regardless
+            // overflows on diagrams with 64 or more levels
+            for (i, node) in self.nodes.iter().enumerate().skip(2) {
                 log::debug!("fixing Term({})", i);
-                self.modelcount_memoization(Term(i));
+                let (lo_counts, lo_paths, lodepth) =
+                    *count_cache.get(&node.lo()).expect("Cache corrupted");
+                let (hi_counts, hi_paths, hidepth) =
+                    *count_cache.get(&node.hi()).expect("Cache corrupted");
+                #[cfg(feature = "adhoccountmodels")]
+                let (lo_exp, hi_exp) = if lodepth > hidepth {
+                    (1, 2usize.pow((lodepth - hidepth) as u32))
+                } else {
+                    (2usize.pow((hidepth - lodepth) as u32), 1)
+                };
+                #[cfg(not(feature = "adhoccountmodels"))]
+                let (lo_exp, hi_exp) = (0, 0);
+                count_cache.insert(
+                    Term(i),
+                    (
+                        (
+                            lo_counts.cmodels * lo_exp + hi_counts.cmodels * hi_exp,
+                            lo_counts.models * lo_exp + hi_counts.models * hi_exp,
+                        )
+                            .into(),
+                        (
+                            lo_paths.cmodels + hi_paths.cmodels,
+                            lo_paths.models + hi_paths.models,
+                        )
+                            .into(),
+                        std::cmp::max(lodepth, hidepth) + 1,
+                    ),
+                );
             }
         }
     }
